@@ -28,4 +28,5 @@ INVARIANT DelayInverse
 INVARIANT DelayMonotone
 INVARIANT ChirpIsDelay
 INVARIANT FixAgrees
+INVARIANT InfiniteRef
 CHECK_DEADLOCK FALSE
